@@ -110,6 +110,14 @@ def expect_from_json(expect):
     return dec_(expect)
 
 
+def same(a, b):
+    """equal as WIRE values - by value and type: True is not 1, 1 is not 1.0, '' is not 0 (Python's == says
+    True == 1 == 1.0; the wire form writes them true / 1 / {'f': [1, 0]})"""
+    if a is ANY or b is ANY:
+        return a is b
+    return json.dumps(a, sort_keys=True, default=str) == json.dumps(b, sort_keys=True, default=str)
+
+
 def judge(expect, obs):
     out = []
     trace = obs.get('trace', [])
@@ -121,7 +129,7 @@ def judge(expect, obs):
         got = [(e['tag'], e['i'], e['w'], e['r']) for e in trace]
         exp = expect['events']
         ok = len(got) == len(exp) and all(
-            g[0] == x[0] and all(x[j] is ANY or g[j] == x[j] for j in (1, 2, 3)) for g, x in zip(got, exp))
+            g[0] == x[0] and all(x[j] is ANY or same(g[j], x[j]) for j in (1, 2, 3)) for g, x in zip(got, exp))
         if not ok:
             out.append(f'events (tag,i,w,r) {got} but the property requires '
                        f'{[tuple("*" if y is ANY else y for y in x) for x in exp]}')
@@ -130,7 +138,7 @@ def judge(expect, obs):
         got = [(e['tag'], e['i'], e['w'], e['r']) for e in trace if e['tag'] == tg]
         exp = expect['events_of']['events']
         ok = len(got) == len(exp) and all(
-            g[0] == x[0] and all(x[j] is ANY or g[j] == x[j] for j in (1, 2, 3)) for g, x in zip(got, exp))
+            g[0] == x[0] and all(x[j] is ANY or same(g[j], x[j]) for j in (1, 2, 3)) for g, x in zip(got, exp))
         if not ok:
             out.append(f'events (tag,i,w,r) of {tg} are {got} but the property requires '
                        f'{[tuple("*" if y is ANY else y for y in x) for x in exp]}')
@@ -181,7 +189,7 @@ def judge(expect, obs):
             out.append(f'step {x[0]} after the call never ran')
         else:
             g = (last['tag'], last['i'], last['w'], last['r'])
-            if any(x[j] is not ANY and g[j] != x[j] for j in (1, 2, 3)):
+            if any(x[j] is not ANY and not same(g[j], x[j]) for j in (1, 2, 3)):
                 out.append(f'after the call step the counters (i, whileCounter, retryCounter) are {g[1:]}, '
                            f'the caller\'s are {tuple("*" if y is ANY else y for y in x[1:])}')
             kk = dict((k, v) for k, v in last['keys'])
@@ -190,7 +198,7 @@ def judge(expect, obs):
     if 'first_keys' in expect and trace:
         kk = dict((k, v) for k, v in trace[0]['keys'])
         for k, v in expect['first_keys'].items():
-            if kk.get(k) != v:
+            if not same(kk.get(k), v):
                 out.append(f'in-argument {k!r} seen by the body as {kk.get(k)!r}, expected {v!r}')
     if 'first_keys_of' in expect:
         tg, want = expect['first_keys_of']
@@ -198,7 +206,7 @@ def judge(expect, obs):
         if ev is not None:
             kk = dict((k, v) for k, v in ev['keys'])
             for k, v in want.items():
-                if kk.get(k) != v:
+                if not same(kk.get(k), v):
                     out.append(f'step {tg} sees context[{k!r}] = {kk.get(k)!r}, expected {v!r}')
     if 'after_keys_missing' in expect:
         last = next((e for e in reversed(trace) if e['tag'] == 'AFTER'), None)
@@ -208,7 +216,7 @@ def judge(expect, obs):
                 if kk.get(k) != MISSING:
                     out.append(f'in-argument {k!r} still in context after the step completed: {kk.get(k)!r}')
     for k, v in (expect.get('ctx_has') or {}).items():
-        if ctx_get(obs, k) != v:
+        if not same(ctx_get(obs, k), v):
             out.append(f'final context[{k!r}] = {ctx_get(obs, k)!r}, expected {v!r}')
     for k in expect.get('ctx_lacks') or []:
         if ctx_get(obs, k) != MISSING:
